@@ -397,9 +397,16 @@ func runFaultBatch(r *vh.Run) {
 				v := i % 4
 				fc := faultCase{Kind: "fault", Fault: f, Pipelined: v&1 == 1 && !tcp, Warm: v&2 == 2, TCP: tcp, Logger: i%8 >= 4, Body: []string{"", "cl", "chunked"}[(i/2)%3], Idx: idx}
 				r.Case(fc)
+				before := r.Violations()
 				runFaultCase(r, fc)
 				if stopEarly(r) {
 					return
+				}
+				if r.Violations() > before && hung(fc) {
+					// a wedged proxy costs ~40 s per case (quiescence + teardown
+					// watchdog): one witness per kind is enough
+					r.Count("fault_kind_skipped_after_a_hang", 1)
+					break
 				}
 			}
 		}
